@@ -20,7 +20,7 @@ RULE = (
     "of declaration lines equals one per member with the title/type of the nearest configured class; the "
     "multiset of relation lines between two member titles equals one per internal link as `title(v1) "
     "<v1side>--<v2side> title(v2)` with the options of the link's nearest configured class; every other relation "
-    "line corresponds to an existing link of a member; empty universe => None.  Every case renders twice: after the first rendering the vertices' title attributes are changed, one member leaves (from the vertex side) and one joins, and the second rendering must show the new state.  Non-trivial = >= 2 internal links "
+    "line corresponds to an existing link of a member; empty universe => None.  Every case renders twice: after the first rendering the vertices' title attributes are changed, one member leaves (from the vertex side) and one joins, and the second rendering - with the same option-table object or with another table in which nearer ancestors are (un)configured, optionally after a rendering that failed - must show the new state.  Non-trivial = >= 2 internal links "
     "of different classes, or an internal self-loop, or a class resolved through the MRO; distinct = distinct case value."
 )
 ASSUMPTIONS = [
@@ -78,26 +78,51 @@ def nearest(cls, options):
 
 
 def check_case(case):
+    from edgegraph.output import plantuml
+
     vs, ls, u = render.build(case)
-    info = _check_render(case, vs, ls, u)
+    keep = {}     # the caller's option table object, reused across renderings in half of the cases
+    sel = case.get("extra", 0)
+    if sel & 4 and u.vertices and not (case["opt"] & 1):
+        # a rendering that FAILS first (the title format names an attribute one member lacks), with the very table
+        # object that is used afterwards; then the attribute is restored (with another value)
+        victim = u.vertices[-1]
+        saved = victim.i
+        del victim.i
+        options, _ = make_options(case["opt"], case["extra"])
+        keep["options"] = options
+        try:
+            plantuml.render_to_plantuml_src(u, options)
+        except Exception:  # noqa - a missing title attribute legitimately fails
+            pass
+        victim.i = saved + 50
+    info = _check_render(case, vs, ls, u, case["opt"], keep)
     if render.perturb(case, vs, ls, u):
-        # a second rendering of the same universe after attributes / membership changed must show the NEW state
-        info2 = _check_render(case, vs, ls, u)
-        info["classes"] = sorted(set(info["classes"]) | {"re-rendered-after-change"})
+        # a second rendering of the same universe after attributes / membership changed must show the NEW state;
+        # with the same table object, or with ANOTHER table (subclass entries toggled: nearer ancestors (dis)appear)
+        opt2 = case["opt"] if sel & 1 else case["opt"] ^ 2
+        if opt2 != case["opt"]:
+            keep.pop("options", None)
+        info2 = _check_render(case, vs, ls, u, opt2, keep)
+        info["classes"] = sorted(set(info["classes"]) | {"re-rendered-after-change"} | ({"re-rendered-with-another-table"} if opt2 != case["opt"] else {"same-table-object-reused"}))
         info["nt"] = info["nt"] or info2["nt"]
     return info
 
 
-def _check_render(case, vs, ls, u):
+def _check_render(case, vs, ls, u, opt, keep):
     from edgegraph.output import plantuml
 
-    options, flags = make_options(case["opt"], case["extra"])
+    options, flags = make_options(opt, case["extra"])
+    if "options" in keep:
+        options = keep["options"]          # the caller reuses its table object
+    else:
+        keep["options"] = options
     if flags["urf"]:
         from edgegraph.structure import Vertex
 
         options[Vertex]["user_render_func"] = lambda v, opts: f"object U{v.i} <<Custom>> {{\n}}\n"
     # the expectation is computed from an independent copy of the table (the library compiles show_attrs in place)
-    ref_options, _ = make_options(case["opt"], case["extra"])
+    ref_options, _ = make_options(opt, case["extra"])
     try:
         src = plantuml.render_to_plantuml_src(u, options)
     except Exception as e:  # noqa
